@@ -18,6 +18,12 @@ Pick(S, k) ==   \* k elements of S starting at a seed-dependent index of its can
        IN  {q[1 + ((Seed * 7919 + i * 104729) % n)] : i \in 1..k}
 RepValueChoices(g) == Pick(AllValueChoices(g), Reps)
 RepBases(g, w) == Pick(AllBases(g, w), 1)
+\* all single corruptions of a representative, and PairK seed-selected second corruptions on top of each
+PairK == IF "TXBAL_PAIRS" \in DOMAIN IOEnv THEN atoi(IOEnv.TXBAL_PAIRS) ELSE 1
+SampledCorruptions(b, c, a) ==
+  IF a = <<>> THEN Corruptions(b, c)
+  ELSE LET S == Corruptions(b, c) q == SetToSeq(S) n == Len(q)
+       IN  {q[1 + ((Seed * 31 + Len(b.ins) * 7 + Len(b.outs) * 13 + Len(b.kerns) * 17 + i * 104729) % n)] : i \in 1..PairK}
 
 Case == [grp |-> grp, body |-> body, ctx |-> ctx, applied |-> applied,
          expect |-> [valid |-> Valid(body, ctx), rule |-> FirstFailing(body, ctx),
